@@ -15,7 +15,9 @@ thorough: tiny + default-size).  Per configuration (mc/c02_core.py), all exhaust
     seed-rotated elements of T while <= 8 s / 60 s have been spent (BinPack, PacMan, RobotWarehouse, RubiksCube,
     MMST: exactly 2 steps and 1 reset in the quick tier).  Every path is rolled out with `lax.scan(step)` for the
     lengths {1, 2, 5, full}; every stacked output and the final carry are compared with the graph nodes.
-    `reset`: jit per key, vmap with batches 1, 2, 4, eager (>= 1 key).  All leaves of state and timestep (extras
+    `reset`: jit per key, vmap with batches 1, 2, 4, and eager `[env.reset(k) for k in keys]` over the whole
+    window on the one object (remaining keys skipped, and said so in the evidence, only if one eager reset takes
+    > 20 s), each result compared when returned and all of them, still held, again after the last reset.  All leaves of state and timestep (extras
     included) are compared: ints/bools exactly, floats rtol 1e-5 / atol 1e-6, after `jnp.asarray` of Python-scalar
     leaves (DESIGN §2 canonical form).
 (2) call histories on ONE object over {reset(k0), reset(k1), step(s0,a0), step(s0,a1), step(s1,a0)}
@@ -27,9 +29,14 @@ thorough: tiny + default-size).  Per configuration (mc/c02_core.py), all exhaust
     when the traced program (jaxpr text and constant values) is identical to the one of a fresh instance the
     results are equal for all inputs, otherwise the program is compiled and the five results are compared.
     Families whose eager step or reset costs >= 0.3 s (static table c02_core.SLOW_HISTORY from unloaded
-    measurements, so that the enumeration does not depend on machine load): the quick tier runs only the first
-    call eagerly (5 objects) and decides the 25 two-call histories by the programs traced after it; the thorough
+    measurements, so that the enumeration does not depend on machine load): the quick tier runs eagerly
+    [reset(k0), reset(k1)], [reset(k1), reset(k0)] and each step call as a first call (5 objects) and decides the
+    remaining two-call histories by the programs traced after them; the thorough
     tier runs all 25 length-2 histories eagerly (+ the traced programs after each).
+    Earlier results: in every eager history, in the eager steps of (1) and in the eager reset list, every result
+    object returned so far is kept with a host snapshot taken right after the call and re-read after EACH later
+    call and at the end; a value change (a later call re-assigning fields of / sharing mutable containers with
+    an object it handed out before) is `<family>:earlier-result-changed-by-later-call`.
     A difference that also shows for the same eager call on a new object with an empty history is reported as
     `<fn>:eager-vs-jit-differs`, not as history dependence.
 (3) arguments intact: around every eager call of (1) and (2) the argument pytrees must keep their structure, the
@@ -43,7 +50,8 @@ violation `<family>:python-state-leaks-tracer`; `lax.scan` refusing the step (ca
 
 Signatures: <family>:step:{jit-vs-graph,eager-vs-jit}-differs, step:vmap{1,2,7}-differs, scan{1,2,5,full}-differs,
 scan-raises, reset:{jit-vs-graph,eager-vs-jit,vmap{1,2,4}}-differs, history-dependent-result,
-instance-dependent-result, argument-mutated, jaxpr-has-effects, python-state-leaks-tracer.
+instance-dependent-result, earlier-result-changed-by-later-call,
+reset:eager-list-vs-vmap-differs, argument-mutated, jaxpr-has-effects, python-state-leaks-tracer.
 
 Oracle decisions: (i) dtype is part of the comparison after `jnp.asarray`; a Python scalar leaf from eager
 reset and the array leaf from jit are the same value in canonical form.  (ii) `jax.disable_jit()` is out of
@@ -99,7 +107,8 @@ ORDER = ["bin_pack", "mmst", "robot_warehouse", "rubiks_cube", "pac_man", "lbf",
 
 REQUIRED = ["n_jit", "n_vmap", "n_vmap1", "n_vmap2", "n_vmap7", "n_scan", "n_scan_full", "n_eager",
             "n_reset_jit", "n_reset_vmap", "n_reset_eager", "n_histories", "n_history_eager_calls",
-            "n_trace_probes", "n_argument_checks", "n_instance_calls", "n_effect_checks"]
+            "n_trace_probes", "n_argument_checks", "n_instance_calls", "n_effect_checks", "n_held_rechecks",
+            "n_reset_list_vs_vmap"]
 
 
 def configurations(tier: str) -> List[Dict[str, str]]:
@@ -141,7 +150,8 @@ def main(tier: str, seed: int) -> int:
     per = rep.coverage["per_model"]
     for m in per:  # every configuration must have exercised every mode
         modes = m.get("modes") or {}
-        for k in ("n_jit", "n_vmap", "n_scan", "n_eager", "n_reset_eager", "n_histories", "n_trace_probes"):
+        for k in ("n_jit", "n_vmap", "n_scan", "n_eager", "n_reset_eager", "n_histories", "n_trace_probes",
+                  "n_held_rechecks"):
             if not m.get("error") and not m.get("aborted") and modes.get(k, 0) <= 0:
                 rep.errors.append(f"vacuous: {m.get('model')} has {k} == 0")
     rep.coverage["exhaustive"] = False  # exhaustive over T x modes and over the histories; T is a bounded part of the graph
